@@ -25,9 +25,18 @@ class Tok:
     def __init__(self, k, v, loc, extra=None): self.k = k; self.v = v; self.loc = loc; self.extra = extra
     def __repr__(self): return 'Tok(%s,%r,%s)' % (self.k, self.v, self.loc)
 
-def lex(src):
+def lex(src, lazy=False):
+    """lazy: a lexical error ends the token list with a Tok('lexerr', RefSyntaxError, loc) instead of being raised."""
+    if not lazy: return _lex(src)
+    toks = []
+    try: _lex(src, toks)
+    except RefSyntaxError as e:
+        toks.append(Tok('lexerr', e, e.loc))
+    return toks
+
+def _lex(src, toks=None):
     """src: str.  Returns list of Tok; kinds: ident, int, str, istr, kw, sym, end.  Raises RefSyntaxError(kind='lex*')."""
-    toks = []; n = len(src)
+    toks = [] if toks is None else toks; n = len(src)
     st = {'i': 0, 'line': 1, 'col': 1}
     def adv(k=1):
         for _ in range(k):
@@ -151,6 +160,7 @@ class Parser:
     def fail(self, what='token'):
         t = self.peek()
         if t is None: raise RefSyntaxError(None, 'unexpected EOF', 'parse-eof')
+        if t.k == 'lexerr': raise t.v
         raise RefSyntaxError(t.loc, 'unexpected %s %r' % (what, t.v), 'parse')
     def eat_sym(self, v):
         if not self.is_sym(v): self.fail()
@@ -373,12 +383,12 @@ class Parser:
         return props
 
 def parse_prog(src):
-    toks = lex(src)
+    toks = lex(src, lazy=True)
     return Parser(toks).prog()
 
 def parse_expr(src):
     """a slot expression of an interpolated string"""
-    toks = lex(src)
+    toks = lex(src, lazy=True)
     p = Parser(toks); e = p.expr()
     if p.peek() is not None: p.fail()
     return e
